@@ -447,9 +447,14 @@ ASSUMPTIONS = [
     "array parameters are one-dimensional",
     "measurement outcomes are fixed by post-selection in generated programs so that the substituted circuit is known in advance",
 ]
-MANIFEST_TEXT = ("C10: substitution commutes with evaluation, ParameterError iff an atom is unbound/unmeasured, dependency "
-                 "extraction exact, latest-outcome invariant of the measured store (full for one program; refuted for the "
-                 "engine's segment forwarding and for symbols shared through the sympy cache, both recorded findings)")
+MANIFEST_TEXT = ("C10 (proof, closed under the global context, scalars and elementary functions abstract): full - C10_subst_eval "
+                 "(substitution of numbers for any subset of atoms commutes with evaluation), C10_no_silent_default (ParameterError iff an "
+                 "atom is unbound/unmeasured), C10_deps_exact + C10_eval_depends_only_on_deps, C10_latest / C10_use_sees_latest / "
+                 "C10_use_before_measure (all histories of measure / re-prepare / use / reset of one program), C10_segments_ideal, "
+                 "C10_bind_unknown_raises / C10_bind_value / C10_bind_frame, C10_decomp_commutes (10 table entries, daggered or not); "
+                 "refuted for the code as written: C10_segments_as_written_refuted, C10_segments_as_written_wrong_mode_refuted (finding "
+                 "run:cross-segment-measured-value).  Not modelled (observed by the search only): sympy's symbol/expression caches "
+                 "(findings cache:*), optimize_circuit (findings optimize:*), the compilers other than decomposition.")
 
 NAMES = ["a", "b", "c", "d"]
 NAME_IDS = {n: i for i, n in enumerate(NAMES)}
